@@ -472,6 +472,8 @@ def gc_protect(ctx):
                   "task returns %s, sends %s; spec: %s (every row of the content-hash iterator, errors included, reaches the collector)" % (got, sent, want), task.sp)
     # the callback: Continue only if the request went through and every received item was a hash, all of them marked live
     cells = [(True, True, ["end"]), (True, True, ["ok", "ok", "end"]), (True, True, ["ok", "err"]), (True, True, ["err"]), (False, True, []), (True, False, []),
+             # a row that failed to load, although the list was otherwise delivered to its end
+             (True, True, ["ok", "err", "ok", "end"]), (True, True, ["err", "end"]),
              # the task was aborted while it streamed (the engine was dropped during a collection run): the channel just closes
              (True, True, ["ok", "ok"]), (True, True, [])]
     for start_ok, reply_ok, stream in cells:
@@ -515,7 +517,7 @@ def r5(ctx):
     ctx.check(ok, "C16.R5", it.path, "forwards-every-row", "next() forwards the underlying range's next()", it.sp)
     # gc protect: the documents' hashes reach the collector, and any failure on the way aborts the collection run
     gc_protect(ctx)
-    ctx.floor("C16.R5", 11)
+    ctx.floor("C16.R5", 13)
 
 
 def r6(ctx):
